@@ -664,6 +664,7 @@ func Run(c *core.Ctx, pool *gjs.Pool) {
 	c.Phase("unwind_scenarios")
 	runRte(c, pool)
 	c.Phase("rte_scenarios")
+	implModel(c, pool, scens)
 	for i, s := range list {
 		if i%(len(list)/3+1) == 0 {
 			c.Sample(map[string]any{"family": json.RawMessage(s.raw)})
